@@ -174,7 +174,7 @@ CHECKS["C05"] = NS(
         "steps whose float counterpart raises are discarded (float-invalid program), and view() must also be valid on a float twin with the size/stride the wrapper reports",
         "whether a result is still quantized is never asserted: falling back to float is always allowed",
     ],
-    PLAN={"quick": [("program", 16, {"n": 250, "max_steps": 8})], "thorough": [("program", 16, {"n": 8000, "max_steps": 12})]},
+    PLAN={"quick": [("program", 16, {"n": 1200, "max_steps": 8})], "thorough": [("program", 16, {"n": 12000, "max_steps": 12})]},
 )
 
 CHECKS["C06"] = NS(
@@ -199,7 +199,35 @@ CHECKS["C06"] = NS(
     ),
     ASSUMPTIONS=["real device moves are impossible here (CPU only): cpu->cpu copies and meta are exercised", "AWQ/Marlin subclasses are out of reach on CPU (C15 covers the AWQ layout)"],
     PLAN={
-        "quick": [("program", 10, {"n": 300, "max_steps": 8}), ("config", 3, {"n": 400}), ("module", 3, {"n": 150})],
+        "quick": [("program", 12, {"n": 2000, "max_steps": 8}), ("config", 2, {"n": 600}), ("module", 2, {"n": 300})],
         "thorough": [("program", 10, {"n": 8000, "max_steps": 12}), ("config", 3, {"n": 10000}), ("module", 3, {"n": 4000})],
     },
+)
+
+CHECKS["C07"] = NS(
+    MODULE="c07_mm",
+    LEVEL="exploration",
+    LEVEL_TEXT=(
+        "Hypothesis-generated (dtype, activation kind, weight qtype, rows, batch rank, in/out features stratified by residue "
+        "class, bias, layout) cases through F.linear, matmul, mm, bmm, the quanto::qbytes_mm op and the three CPU route "
+        "functions called directly. Two oracles against a float64 reference of the dequantized operands: exact mode "
+        "(small integer codes, a different power-of-two scale per output row, sums bounded so that every partial sum is "
+        "exactly representable: the result must be bit-exact on every route whatever the accumulation order) and realistic "
+        "mode (accumulation bound, finiteness). Worker crashes (SIGSEGV in torch kernels) are contained and reported. Exploration."
+    ),
+    LEVEL_NOTE="float64 reference; realistic bound (K+4)u*sum|x||w| + 3u|ref| + scale-product underflow term; CPU routes only (CUDA int GEMM thresholds are exercised through aten.mm dispatch on CPU)",
+    TECHNIQUE=PBT + "bit-exact oracle on exactly representable operand sets, float64 accumulation bound, differential between kernel routes, crash containment",
+    RULE=(
+        "Hypothesis: rows 1-64 (both sides of >16 and %8), features from 34 values covering residues mod 32/16/8/4/odd/1 up to 512, "
+        "batch rank 1-3, 3 dtypes, 4 activation kinds x 3 scale kinds, 5 weight qtypes (per-axis, per-tensor, grouped), bias, "
+        "contiguous/transposed/sliced activations, 8 entry points, exact/realistic mode. Non-trivial: anything but the suite's corner "
+        "(fp32, float activations, square multiple-of-32 features). Distinct by the configuration tuple. The evidence lists how many "
+        "calls reached each CPU route (counting shims around the three route functions)."
+    ),
+    ASSUMPTIONS=[
+        "CUDA and MPS kernels are unreachable; AWQ gemm not exercised",
+        "1-D activations are outside the property's domain (batch rank 1-3)",
+        "route functions are called directly only where their preconditions hold (int GEMM: both int8 and in_features > 1; int8-pack: bf16 x int8, in_features % 16 == 0)",
+    ],
+    PLAN={"quick": [("grid", 8, {}), ("kernels", 8, {"n": 500})], "thorough": [("grid", 8, {}), ("kernels", 16, {"n": 12000})]},
 )
